@@ -49,6 +49,13 @@ def scan(text):
             j = text.find("`", i + 1)
             adv(j + 1 if j >= 0 else n)
             continue
+        if c == "{":
+            # a list expression {a,it's,b}: its items are literal text (an apostrophe or # in an item opens nothing)
+            j = text.find("}", i + 1)
+            k = text.find("\n", i + 1)
+            if j >= 0 and (k < 0 or j < k):
+                adv(j + 1)
+                continue
         if c == "#":
             j = text.find("\n", i)
             j = n if j < 0 else j
